@@ -498,6 +498,7 @@ type commit struct {
 	deleted bool
 	version string
 	seq     int
+	pseudo  bool // marks a restore: the state may jump, nothing is published for it
 }
 
 type watcher struct {
@@ -512,6 +513,12 @@ type watcher struct {
 	pos          map[string]int // per resource: seq of the last delivered live event
 	log          []string
 	afterRestore bool
+
+	created   int   // commits at creation
+	notBefore int   // a cached listing cannot predate this point (last restore)
+	cands     []int // listing points T0 still consistent with what was received
+	minCand   int
+	got       map[int]bool // commits delivered as live events
 }
 
 type wexec struct {
@@ -525,8 +532,22 @@ type wexec struct {
 	viol     [][2]string
 	restored bool
 
-	pending    *inmem.Restoration
-	pendingCur map[string]*pbresource.Resource
+	pending     *inmem.Restoration
+	pendingCur  map[string]*pbresource.Resource
+	hist        []map[string]string
+	lastRestore int
+}
+
+// snapshotState remembers key -> version after the latest commit (hist[n] = state after n commits).
+func (e *wexec) snapshotState() {
+	if len(e.hist) == 0 {
+		e.hist = append(e.hist, map[string]string{})
+	}
+	m := map[string]string{}
+	for k, r := range e.cur {
+		m[k] = r.Version
+	}
+	e.hist = append(e.hist, m)
 }
 
 func (e *wexec) violate(sig, msg string) {
@@ -550,6 +571,7 @@ func (e *wexec) doStep(s wstep) {
 		}
 		e.cur[k] = out
 		e.commits = append(e.commits, commit{key: k, version: out.Version, seq: len(e.commits) + 1})
+		e.snapshotState()
 	case "delete":
 		c := e.cur[k]
 		if c == nil {
@@ -561,6 +583,7 @@ func (e *wexec) doStep(s wstep) {
 		}
 		delete(e.cur, k)
 		e.commits = append(e.commits, commit{key: k, deleted: true, version: c.Version, seq: len(e.commits) + 1})
+		e.snapshotState()
 	case "restore-begin":
 		// the first half of a restore: the snapshot is loaded into a new database that is not live yet
 		snap, err := st.Snapshot()
@@ -589,6 +612,9 @@ func (e *wexec) doStep(s wstep) {
 		e.pending = nil
 		e.cur = e.pendingCur // writes that landed in between went to the database that was replaced
 		e.restored = true
+		e.commits = append(e.commits, commit{pseudo: true, seq: len(e.commits) + 1})
+		e.snapshotState()
+		e.lastRestore = len(e.commits)
 		e.pump()
 		for _, w := range e.ws {
 			if w.opened && !w.closed && !w.afterRestore {
@@ -611,6 +637,9 @@ func (e *wexec) doStep(s wstep) {
 		}
 		rest.Commit()
 		e.restored = true
+		e.commits = append(e.commits, commit{pseudo: true, seq: len(e.commits) + 1})
+		e.snapshotState()
+		e.lastRestore = len(e.commits)
 		e.pump()
 		for _, w := range e.ws {
 			if w.opened && !w.closed {
@@ -643,12 +672,14 @@ func (e *wexec) open(w *watcher) {
 		}
 	}
 	w.after = len(e.commits)
+	w.created = len(e.commits)
+	w.notBefore = e.lastRestore
 }
 
 // seqOf finds the commit a delivered event corresponds to.
 func (e *wexec) seqOf(k, version string, deleted bool) int {
 	for _, c := range e.commits {
-		if c.key == k && c.version == version && c.deleted == deleted {
+		if !c.pseudo && c.key == k && c.version == version && c.deleted == deleted {
 			return c.seq
 		}
 	}
@@ -679,15 +710,32 @@ func (e *wexec) pump() {
 			case evt.GetEndOfSnapshot() != nil:
 				w.snapDone = true
 				e.trace = append(e.trace, fmt.Sprintf("%s.end-of-listing%v", w.spec.label, sortedKV(w.gotInit)))
-				if fmt.Sprint(sortedKV(w.gotInit)) != fmt.Sprint(sortedKV(w.initial)) {
+				// The listing must be the matching resources after some commit T0 not later than the watch's
+				// creation: normally the creation itself, earlier when the publisher serves the snapshot it
+				// cached for an earlier watch on the same subject (never older than the last restore, which
+				// evicts the cache). Every such T0 stays a candidate; live events then narrow them down.
+				for t := w.created; t >= w.notBefore && t < len(e.hist); t-- {
+					m := map[string]string{}
+					for k, v := range e.hist[t] {
+						if matches(w.spec.ns, k) {
+							m[k] = v
+						}
+					}
+					if fmt.Sprint(sortedKV(m)) == fmt.Sprint(sortedKV(w.gotInit)) {
+						w.cands = append(w.cands, t)
+					}
+				}
+				if len(w.cands) == 0 {
 					cls := "incomplete"
 					if len(w.gotInit) > len(w.initial) {
 						cls = "extra"
 					} else if len(w.gotInit) == len(w.initial) {
 						cls = "wrong-versions"
 					}
-					e.violate("C18:initial-listing-"+cls, fmt.Sprintf("watch %s: listing %v, resources matching when the watch was created %v", w.spec.label, sortedKV(w.gotInit), sortedKV(w.initial)))
+					e.violate("C18:initial-listing-"+cls, fmt.Sprintf("watch %s: listing %v; resources matching when the watch was created %v; no state of the store since the last restore matches the listing", w.spec.label, sortedKV(w.gotInit), sortedKV(w.initial)))
+					w.cands = []int{w.created}
 				}
+				w.minCand = w.cands[len(w.cands)-1]
 			case evt.GetUpsert() != nil || evt.GetDelete() != nil:
 				var r *pbresource.Resource
 				del := evt.GetDelete() != nil
@@ -709,27 +757,45 @@ func (e *wexec) pump() {
 				}
 				seq := e.seqOf(k, r.Version, del)
 				e.trace = append(e.trace, fmt.Sprintf("%s.event(%s v%s del=%v)", w.spec.label, k, r.Version, del))
-				switch {
-				case seq < 0:
+				if seq < 0 {
 					e.violate("C18:event-for-unknown-commit", fmt.Sprintf("watch %s: %s v%s", w.spec.label, k, r.Version))
-				case seq <= w.after:
-					e.violate("C18:event-older-than-listing", fmt.Sprintf("watch %s received %s v%s (commit %d) after a listing taken at commit %d", w.spec.label, k, r.Version, seq, w.after))
+					continue
+				}
+				// which listing points are still consistent with receiving this commit now?
+				var keep []int
+				for _, t := range w.cands {
+					ok := seq > t
+					for _, c := range e.commits {
+						if ok && c.key == k && !c.pseudo && c.seq > t && c.seq < seq && !w.got[c.seq] {
+							ok = false
+						}
+					}
+					if ok {
+						keep = append(keep, t)
+					}
+				}
+				switch {
+				case len(keep) > 0:
+					w.cands = keep
+				case seq <= w.minCand:
+					e.violate("C18:event-older-than-listing", fmt.Sprintf("watch %s received %s v%s (commit %d) after a listing that already reflects commit %d", w.spec.label, k, r.Version, seq, w.minCand))
 				case seq <= w.pos[k]:
 					e.violate("C18:events-out-of-commit-order", fmt.Sprintf("watch %s: %s commit %d delivered after commit %d", w.spec.label, k, seq, w.pos[k]))
 				default:
-					// nothing of this resource may have been skipped
-					for _, c := range e.commits {
-						if c.key == k && c.seq > w.after && c.seq > w.pos[k] && c.seq < seq {
-							e.violate("C18:event-skipped", fmt.Sprintf("watch %s: %s commit %d delivered but commit %d never was", w.spec.label, k, seq, c.seq))
-						}
-					}
+					e.violate("C18:event-skipped", fmt.Sprintf("watch %s: %s commit %d delivered although an earlier commit of it since the listing never was (listing points still possible: %v)", w.spec.label, k, seq, w.cands))
+				}
+				if w.got == nil {
+					w.got = map[int]bool{}
+				}
+				w.got[seq] = true
+				if seq > w.pos[k] {
 					w.pos[k] = seq
 				}
 				// a read made after receiving an event never returns older data
 				got, err := e.be.Read(ctx, storage.StrongConsistency, rid(r.Id.Name, r.Id.Tenancy.Namespace, ""))
 				latest := -1
 				for _, c := range e.commits {
-					if c.key == k {
+					if c.key == k && !c.pseudo {
 						latest = c.seq
 					}
 				}
@@ -797,13 +863,14 @@ func runW(sc *wscenario, prefix []int) (*wexec, []int, []int) {
 	if err != nil {
 		panic(err)
 	}
-	e := &wexec{sc: sc, be: be, cur: map[string]*pbresource.Resource{}, pcs: make([]int, len(sc.writers))}
+	e := &wexec{sc: sc, be: be, cur: map[string]*pbresource.Resource{}, pcs: make([]int, len(sc.writers)), hist: []map[string]string{{}}}
 	for _, s := range sc.seed {
 		e.doStep(s)
 	}
 	for be.VerifStore().VerifPublisher().VerifDrainOne() {
 	}
-	for _, ws := range sc.watchers {
+	for i, ws := range sc.watchers {
+		ws.label = fmt.Sprintf("%s#%d", ws.label, i+1)
 		e.ws = append(e.ws, &watcher{spec: ws})
 	}
 	var alts, choices []int
@@ -832,12 +899,27 @@ func runW(sc *wscenario, prefix []int) (*wexec, []int, []int) {
 			e.violate("C18:initial-listing-never-completed", w.spec.label)
 			continue
 		}
-		for _, c := range e.commits {
-			if c.seq > w.after && matches(w.spec.ns, c.key) && w.pos[c.key] < c.seq {
-				// only the last missing commit per resource matters for the message
-				e.violate("C18:event-missing-at-quiescence", fmt.Sprintf("watch %s never received %s commit %d (v%s del=%v)", w.spec.label, c.key, c.seq, c.version, c.deleted))
+		// some listing point must explain everything: every later commit of the tenancy was delivered
+		okAny := false
+		var missing string
+		for _, t := range w.cands {
+			ok := true
+			for _, c := range e.commits {
+				if !c.pseudo && c.seq > t && matches(w.spec.ns, c.key) && !w.got[c.seq] {
+					ok = false
+					if missing == "" {
+						missing = fmt.Sprintf("%s commit %d (v%s del=%v) for listing point %d", c.key, c.seq, c.version, c.deleted, t)
+					}
+					break
+				}
+			}
+			if ok {
+				okAny = true
 				break
 			}
+		}
+		if !okAny {
+			e.violate("C18:event-missing-at-quiescence", fmt.Sprintf("watch %s: everything is published and consumed but it never received %s", w.spec.label, missing))
 		}
 		w.w.Close()
 	}
